@@ -113,6 +113,8 @@ class Printer:
             return P_UNARY
         if k in ('field', 'index', 'slice', 'call', 'objext', 'std'):
             return P_POSTFIX
+        if k == 'implib':
+            return P_ATOM
         return P_ATOM
 
     def at(self, e, minprec):
@@ -248,6 +250,8 @@ class Printer:
             return s + '; ' + self.at(e[3], 0)
         if k == 'error':
             return 'error ' + self.at(e[1], 0)
+        if k == 'implib':
+            return '(import ' + jstr(e[1] + '.libsonnet') + ')'
         if k == 'implit':
             return IMPORT_KW[e[1]] + ' "x.libsonnet"'
         if k == 'imptb':
@@ -373,6 +377,8 @@ def sx(e):
         return '( assert %s %s %s )' % (sx(e[1]), sx_opt(e[2]), sx(e[3]))
     if k == 'error':
         return '( error %s )' % sx(e[1])
+    if k == 'implib':
+        return 'v:' + hx('$' + e[1])   # the model binds libraries to variables of the root environment
     if k == 'implit':
         return '( implit %d )' % e[1]
     if k == 'imptb':
